@@ -166,19 +166,24 @@ fn scan_dot(cur: &mut Peekable<CharIndices>) -> Result<Token, Error> {
         _ => TokenType::Dot,
     };
 
+    let mut prev = '.';
     while let Some(&(offset, c)) = cur.peek() {
         if c == '.' {
             token_type = TokenType::Symbol;
         }
         let check = match token_type {
             TokenType::Symbol => is_subsequent_identifier(c),
-            TokenType::Number => is_subsequent_number(c),
+            // The sign of an exponent, .5e-3, is part of the number
+            TokenType::Number => {
+                is_subsequent_number(c) || ((c == '+' || c == '-') && (prev == 'e' || prev == 'E'))
+            }
             _ => false,
         };
         if !check && start != end {
             break;
         }
         end = offset + c.len_utf8();
+        prev = c;
         cur.next();
     }
 
@@ -296,8 +301,12 @@ fn scan_number(cur: &mut Peekable<CharIndices>) -> Result<Token, Error> {
     let start = cur.peek().unwrap().0;
     let mut end = start;
     let mut token_type = TokenType::Number;
+    let mut prev = ' ';
     while let Some(&(offset, c)) = cur.peek() {
-        if !is_subsequent_number(c) && start != end {
+        // The sign of an exponent, 1e-5, is part of the number
+        let exponent_sign =
+            (c == '+' || c == '-') && (prev == 'e' || prev == 'E') && token_type == TokenType::Number;
+        if !is_subsequent_number(c) && !exponent_sign && start != end {
             if is_subsequent_identifier(c) && c != ';' {
                 token_type = TokenType::Symbol;
             } else {
@@ -305,6 +314,7 @@ fn scan_number(cur: &mut Peekable<CharIndices>) -> Result<Token, Error> {
             }
         }
         end = offset + c.len_utf8();
+        prev = c;
         cur.next();
     }
     Ok(Token::new((start, end), token_type))
